@@ -705,8 +705,8 @@ func (w *world) opExec(n uint64) string {
 		res = "err:not-found"
 	case err != nil:
 		res = "err:exec-failed"
-		if len(w.out.Stats.Extra) < 40 {
-			w.out.Stats.Extra[fmt.Sprintf("exec-failure-sample-%d", len(w.out.Stats.Extra))] = strings.SplitN(err.Error(), "\n", 2)[0]
+		if _, ok := w.out.Stats.Extra["exec-failure-sample"]; !ok {
+			w.out.Stats.Extra["exec-failure-sample"] = strings.SplitN(err.Error(), "\n", 2)[0]
 		}
 	}
 	if res == "ok" {
@@ -1232,6 +1232,14 @@ func (w *world) votesOf(oracle sdk.AccAddress) int {
 // Monitors: a vote may be recorded only for an oracle whose registered bridger signed the transaction; the signers
 // the codec derives for a claim message must include the bridger the vote is counted for whenever the tx is accepted.
 func (w *world) txLevel() {
+	// an attacker account that is nobody's bridger
+	wKey := helpers.NewPriKey()
+	wAddr := sdk.AccAddress(wKey.PubKey().Address())
+	w.s.MintToken(wAddr, sdk.NewCoin(fxtypes.DefaultDenom, w.pr.MulRaw(1000)))
+	pp := w.k.GetParams(w.s.Ctx)
+	pp.SignedWindow = 30000 // no slashing while the transaction blocks run
+	_ = w.k.SetParams(w.s.Ctx, &pp)
+	w.s.Commit()
 	regs := w.registered()
 	var tgt *orcView
 	for i := range regs {
@@ -1247,12 +1255,6 @@ func (w *world) txLevel() {
 	bID := w.bridgerID[tgt.o.BridgerAddress]
 	bKey := w.bridgerKeys[bID-bridgerBase]
 	bAddr := w.bridgers[bID-bridgerBase]
-	// an attacker account that is nobody's bridger
-	wKey := helpers.NewPriKey()
-	wAddr := sdk.AccAddress(wKey.PubKey().Address())
-	w.s.MintToken(wAddr, sdk.NewCoin(fxtypes.DefaultDenom, w.pr.MulRaw(1000)))
-	w.s.Commit()
-
 	mk := func() crosschaintypes.ExternalClaim {
 		n := w.k.GetLastEventNonceByOracle(w.s.Ctx, tgt.o.GetOracle()) + 1
 		sp := w.spec(n, 7, "p")
@@ -1338,7 +1340,11 @@ func (w *world) txLevel() {
 	if vb == nil {
 		_ = hx.Try(func() error { _, herr = w.s.App.MsgServiceRouter().Handler(md)(cctx, md); return nil })
 	}
-	w.out.Stats.Extra["inproc:MsgClaim wrapper!=inner"] = fmt.Sprintf("validateBasicErr=%v handlerErr=%v", vb != nil, herr != nil)
+	if o, f := w.k.GetOracle(w.s.Ctx, tgt.o.GetOracle()); !f || !o.Online {
+		w.out.Count("inproc:target-went-offline")
+		return
+	}
+	w.out.Stats.Extra["inproc:MsgClaim wrapper!=inner"] = fmt.Sprintf("validateBasicErr=%v handlerErr=%v", vb, herr)
 	w.out.Count(fmt.Sprintf("inproc:wrapper!=inner:accepted=%v", vb == nil && herr == nil))
 }
 
@@ -1364,7 +1370,7 @@ func TestC01(t *testing.T) {
 	}
 
 	chains := []string{"eth", "bsc", "tron"}
-	nSeq := hx.N(60, 900)
+	nSeq := hx.N(300, 2400)
 	for it := 0; it < nSeq; {
 		s := hx.NewSuite(t, 1+rng.Intn(3))
 		for _, chain := range chains {
@@ -1378,7 +1384,7 @@ func TestC01(t *testing.T) {
 				steps = 300
 			}
 			w := runRandom(t, s, out, rng, chain, steps, nO)
-			if it%10 == 0 {
+			if it%5 == 0 {
 				w.txLevel()
 			}
 			it++
